@@ -237,6 +237,27 @@ let show_cram (cs, stop) =
                        (if h.ch_landmarks = [] then "_" else String.concat "." (List.map dec_of_n h.ch_landmarks))] in
   String.concat ";" (List.map one cs) ^ "|" ^ dec_of_n stop
 
+(* ---- kinds acsi / atbi: args = payload sizes with_pending; printing in C17's text encoding ---- *)
+let ic_list sep l f = if l = [] then "_" else String.concat sep (List.map f l)
+let ic_opt o f = match o with None -> "-" | Some x -> f x
+let ic_pairs cs = ic_list "," cs (fun (a, b) -> dec_of_n a ^ ":" ^ dec_of_n b)
+let ic_hdr ho = ic_opt ho (fun h -> String.concat ":" [
+  (match h.h_format with FGeneric false -> "g" | FGeneric true -> "b" | FSam -> "s" | FVcf -> "v");
+  dec_of_n h.h_seq; dec_of_n h.h_beg; ic_opt h.h_end dec_of_n; dec_of_n h.h_meta; dec_of_n h.h_skip;
+  ic_list "," h.h_names (fun nm -> if nm = [] then "." else hex_of_bytes nm) ])
+let ic_meta mo = ic_opt mo (fun m ->
+  String.concat ":" [dec_of_n m.m_beg; dec_of_n m.m_end; dec_of_n m.m_mapped; dec_of_n m.m_unmapped])
+let ic_bins bs = ic_list ";" bs (fun (id, cs) -> dec_of_n id ^ "=" ^ ic_pairs cs)
+let ic_cref r = String.concat "|" [ic_bins r.cr_bins; ic_pairs r.cr_loffs; ic_meta r.cr_meta]
+let ic_tref r = String.concat "|" [ic_bins r.br_bins; ic_meta r.br_meta; ic_list "," r.br_intervals dec_of_n]
+let ic_csi io = match io with
+  | None -> "Err"
+  | Some i -> String.concat " " [dec_of_n i.ci_ms; string_of_int (int_of_nat i.ci_depth); ic_hdr i.ci_header;
+                                 ic_list "/" i.ci_refs ic_cref; ic_opt i.ci_unplaced dec_of_n]
+let ic_tbi io = match io with
+  | None -> "Err"
+  | Some i -> String.concat " " [ic_hdr i.ti_header; ic_list "/" i.ti_refs ic_tref; ic_opt i.ti_unplaced dec_of_n]
+
 (* kind `afar`: args = data cap sizes with_pending *)
 let show_frecs rs =
   String.concat ";" (List.map (fun r ->
@@ -245,6 +266,14 @@ let show_fend = function FEnd -> "ok" | FInvalidData -> "Err:InvalidData" | FNoF
 
 let handle kind a =
   match kind with
+  | "acsi" ->
+      let data = bytes_of_hex a.(0) in
+      Some ("sync=" ^ ic_csi (sync_csi_case data)
+            ^ " async=" ^ ic_csi (async_csi_case (script_codes a.(1) a.(2)) (nat_of_int 32) data))
+  | "atbi" ->
+      let data = bytes_of_hex a.(0) in
+      Some ("sync=" ^ ic_tbi (sync_tbi_case data)
+            ^ " async=" ^ ic_tbi (async_tbi_case (script_codes a.(1) a.(2)) (nat_of_int 32) data))
   | "afar" ->
       let data = bytes_of_hex a.(0) and cap = nat_of_int (int_of_string a.(1)) in
       let (srs, se) = sync_fasta_records_case data in
